@@ -44,7 +44,14 @@ let () =
     let t = Array.of_list (String.split_on_char ' ' (String.trim line)) in
     let model, verdict =
       try
-        match t.(0) with
+        (* ops ending in '@' (one object in two roles) or '=...' (result assigned back to an argument) have the
+           value semantics of the plain op: the model has no notion of object identity *)
+        let base_op =
+          let o = t.(0) in
+          match String.index_opt o '=' with
+          | Some k -> String.sub o 0 k
+          | None -> if String.length o > 0 && o.[String.length o - 1] = '@' then String.sub o 0 (String.length o - 1) else o in
+        match base_op with
         | "process" ->
             let p = get t.(1) in
             let m = (match c18_processPath p with
@@ -110,11 +117,11 @@ let () =
                     else if not (c18_nf r) then "result-not-normal-form"
                     else if c18_processPath (c18_spec_concat a r) <> c18_processPath b then "roundtrip-not-same-sanitised-string"
                     else "ok")
-        | "prefix" | "prefix_vec" | "prefix_list" | "prefix_sv" | "prefix_deque" ->
+        | "prefix" | "prefix_vec" | "prefix_list" | "prefix_sv" | "prefix_deque" | "prefix_vsc" | "prefix_pmr" ->
             (* any character container, prefix handed over as const char* (cut at the first NUL) *)
             let s = get t.(1) and x = get t.(2) in
             b01 (c18_hasPrefix_c s x), (fun i -> expect_bool i (c18_spec_prefix (c18_cstr x) s) "prefix")
-        | "suffix" | "suffix_vec" | "suffix_list" | "suffix_sv" | "suffix_deque" ->
+        | "suffix" | "suffix_vec" | "suffix_list" | "suffix_sv" | "suffix_deque" | "suffix_vsc" | "suffix_pmr" ->
             let s = get t.(1) and x = get t.(2) in
             b01 (c18_hasSuffix_c s x), (fun i -> expect_bool i (c18_spec_suffix (c18_cstr x) s) "suffix")
         | "format" ->
